@@ -17,3 +17,7 @@ const (
 func verifIO(*DB, verifOp, int64, []byte) error { return nil }
 
 func verifAttach(*DB) {}
+
+func verifMap(*DB, int) (bool, error) { return false, nil }
+
+func verifUnmap(*DB) (bool, error) { return false, nil }
